@@ -179,37 +179,84 @@ def validate_contract(events, journal):
     return problems
 
 
-_REPR_OK = None
+_CACHE_ATTR = "?"  # (attribute name, None | index of the function inside a tuple value)
+_TEMPLATES = {}
+
+
+def _probe_call(func):
+    """A scratch tracer after ONE real call event of `func` (real code object, module globals)."""
+    from vfix import funcs as F
+    from monkeytype.tracing import CallTracer
+
+    t = CallTracer(ListLogger(), 0, None, None)
+    code = func.__code__
+    names = code.co_varnames[: code.co_argcount + code.co_kwonlyargcount]
+    t(FakeFrame(code, {n: 0 for n in names}, vars(F), None, 0), "call", None)
+    return t, code
+
+
+def function_cache_attr():
+    """Where the CallTracer memoises the function resolved for a code object, DISCOVERED on a real frame: a dict attribute
+    that, after a real call event, holds the real code object as a key and, as its value, the function itself or a tuple
+    containing it.
+
+    The model frames of several harnesses carry a code VIEW (one symbolic opcode) that function lookup cannot resolve, so the
+    resolved function has to be planted where the tracer memoises lookups.  Nothing else of the tracer's internal
+    representation is used: states are built by feeding events, and judged through the log and through `residue` (a scan of
+    whatever containers the tracer has).  If no such dict exists any more, those harnesses answer INCONCLUSIVE."""
+    global _CACHE_ATTR
+    if _CACHE_ATTR == "?":
+        _CACHE_ATTR = None
+        try:
+            from vfix import funcs as F
+
+            t, code = _probe_call(F.mod_func)
+            for name, v in vars(t).items():
+                if not isinstance(v, dict) or not any(k is code for k in v):
+                    continue
+                val = v[code]
+                if val is F.mod_func:
+                    _CACHE_ATTR = (name, None)
+                    break
+                if isinstance(val, tuple) and any(x is F.mod_func for x in val):
+                    _CACHE_ATTR = (name, [x is F.mod_func for x in val].index(True))
+                    break
+        except Exception:  # noqa: BLE001
+            _CACHE_ATTR = None
+    return _CACHE_ATTR
 
 
 def representation_ok():
-    """Several harnesses construct or read tracer state through `CallTracer.traces` (frame -> CallTrace) and
-    `CallTracer.cache` (code -> function), because their model frames carry a code VIEW that function lookup cannot
-    resolve.  If a change of the tracer's internal representation makes that impossible, those harnesses can no longer
-    judge anything: they answer INCONCLUSIVE (exit 2, 'harness needs updating') instead of raising an alarm.  The
-    representation-independent harnesses (recorded real runs, the whole pipeline, `abandon`) still judge behaviour."""
-    global _REPR_OK
-    if _REPR_OK is None:
-        try:
-            from vfix import funcs as F
-            from monkeytype.tracing import CallTracer
-
-            lg = ListLogger()
-            t = CallTracer(lg, 0, None, None)
-            code = F.mod_func.__code__
-            fr = FakeFrame(code, {"a": 1, "b": 2}, vars(F), None, 0)
-            ok = isinstance(getattr(t, "traces", None), dict) and isinstance(getattr(t, "cache", None), dict)
-            if ok:
-                t(fr, "call", None)
-                ok = fr in t.traces and t.cache.get(code) is F.mod_func and getattr(t.traces[fr], "func", None) is F.mod_func
-            _REPR_OK = bool(ok)
-        except Exception:  # noqa: BLE001
-            _REPR_OK = False
-    return _REPR_OK
+    return function_cache_attr() is not None
 
 
-REPR_MSG = ("the tracer no longer keeps in-flight calls in CallTracer.traces (frame -> CallTrace) and resolved functions in "
-            "CallTracer.cache (code -> function): this harness builds / reads its states through them and needs updating")
+def seed_function(tracer, code, func, like=None):
+    """Plant `func` (None: unresolvable) as the function resolved for the (model) code object `code`, a view of the code of
+    `like` (default: `func` itself)."""
+    name, idx = function_cache_attr()
+    if idx is None:
+        getattr(tracer, name)[code] = func
+        return
+    base = like if like is not None else func
+    if base not in _TEMPLATES:
+        t, real = _probe_call(base)
+        _TEMPLATES[base] = getattr(t, name)[real]
+    tmpl = _TEMPLATES[base]
+    getattr(tracer, name)[code] = tuple(func if i == idx else x for i, x in enumerate(tmpl))
+
+
+def forget_function(tracer, code):
+    name, _idx = function_cache_attr()
+    getattr(tracer, name).pop(code, None)
+
+
+def in_flight(tracer, frame):
+    """Does the tracer hold per-call state for `frame` (in whatever container it keeps such state)?"""
+    return bool(residue(tracer, frame))
+
+
+REPR_MSG = ("the tracer no longer memoises resolved functions in a dict attribute keyed by code object: the model frames of this "
+            "harness (code views with a symbolic opcode) cannot be given their function, the harness needs updating")
 
 
 def residue(tracer, frame):
@@ -217,7 +264,7 @@ def residue(tracer, frame):
     still mention `frame`: per-call state that outlived the call."""
     out = []
     for name, v in vars(tracer).items():
-        if name == "cache":
+        if function_cache_attr() and name == function_cache_attr()[0]:
             continue
         if isinstance(v, (dict, set, list, frozenset, tuple)):
             for x in list(v):
